@@ -277,3 +277,64 @@ func VerifC12_UnorderedFilterKeepsLabelledPods() {
 	}
 	verifrt.Cover("done")
 }
+
+// VerifC12_OrderedFilterIsOrderIndependent: the pods the ordered (StatefulSet) rollback filter lets the patcher see
+// are a function of the pods themselves, not of the order the lister happened to return them in: two passes over the
+// same pods in different orders select the same pods (otherwise a second pass labels further pods for the batch).
+func VerifC12_OrderedFilterIsOrderIndependent() {
+	mk := func(i int, newRev, terminating bool) *corev1.Pod {
+		p := &corev1.Pod{ObjectMeta: metav1.ObjectMeta{Namespace: "ns", Name: "sts-" + strconv.Itoa(i), Labels: map[string]string{}}}
+		if newRev {
+			p.Labels[apps.ControllerRevisionHashLabelKey] = c12Revision
+		} else {
+			p.Labels[apps.ControllerRevisionHashLabelKey] = "rev-old"
+		}
+		if terminating {
+			now := metav1.Now()
+			p.DeletionTimestamp = &now
+		}
+		return p
+	}
+	const n = 3
+	var newRev, term [n]bool
+	for i := 0; i < n; i++ {
+		newRev[i] = verifrt.Bool("pod.newRevision")
+		term[i] = verifrt.Bool("pod.terminating")
+	}
+	perms := [][]int{{0, 1, 2}, {0, 2, 1}, {1, 0, 2}, {1, 2, 0}, {2, 0, 1}, {2, 1, 0}}
+	perm := perms[verifrt.Concrete(verifrt.IntRange("lister.order", 0, len(perms)-1))]
+	build := func(order []int) []*corev1.Pod {
+		var l []*corev1.Pod
+		for _, i := range order {
+			l = append(l, mk(i, newRev[i], term[i]))
+		}
+		return l
+	}
+	ctx := func() *batchcontext.BatchContext {
+		return &batchcontext.BatchContext{RolloutID: c12RolloutID, UpdateRevision: c12Revision, Replicas: n,
+			DesiredPartition:       intstr.FromInt(verifrt.IntRange("partition", 0, n)),
+			PlannedUpdatedReplicas: int32(verifrt.IntRange("planned", 0, n))}
+	}
+	c1 := ctx()
+	c2 := &batchcontext.BatchContext{RolloutID: c1.RolloutID, UpdateRevision: c1.UpdateRevision, Replicas: c1.Replicas, DesiredPartition: c1.DesiredPartition, PlannedUpdatedReplicas: c1.PlannedUpdatedReplicas}
+	a := FilterPodsForOrderedUpdate(build(perms[0]), c1)
+	b := FilterPodsForOrderedUpdate(build(perm), c2)
+	names := func(l []*corev1.Pod) map[string]int {
+		m := map[string]int{}
+		for _, p := range l {
+			m[p.Name]++
+		}
+		return m
+	}
+	na, nb := names(a), names(b)
+	same := len(na) == len(nb)
+	for k, v := range na {
+		if nb[k] != v {
+			same = false
+		}
+	}
+	verifrt.Assert(same, "C12.orderedFilter.selectionIndependentOfListOrder")
+	for _, v := range na {
+		verifrt.Assert(v == 1, "C12.orderedFilter.noDuplicates")
+	}
+}
